@@ -82,11 +82,32 @@ theorem C03_history : ∀ row ∈ wiring, ∀ (vpn : Bool) (r : Range), RangeOK 
   fun row hrow vpn _ hr st fs =>
     Proofs.Reply.compatible_history row (wiring_compatible row hrow) vpn hr st fs
 
+/-- libpcap compiles the filter of every row for the link type that row's socket has (it would refuse `arp` on a
+    raw-IP socket, "expression rejects all packets"; the arp command has no `--vpn`), so `SetBPFFilter` succeeds and
+    the scan starts -/
+theorem C03_filters_compile : ∀ row ∈ wiring, ∀ (vpn : Bool) (r : Range),
+    compiles (filterOf row.bpf r) (linkOf row vpn) = true :=
+  fun row hrow vpn r => Proofs.Reply.compatible_compiles row (wiring_compatible row hrow) vpn r
+
 /-- every chunk `Ports[i : min (i + chunkSize) len]` of a valid range is a valid range, so the theorems above apply to
     each engine run of `startPortScanEngine` with the ports *of that run* -/
 theorem C03_chunks (r : Range) (hr : RangeOK r = true) (i : Nat) :
     RangeOK { r with ports := (r.ports.drop i).take chunkSize } = true :=
   Proofs.Reply.rangeOK_chunk r hr i chunkSize
+
+/-- NOT PROVED (a definition: nothing is claimed).  The kernel hands the processor only the first `snaplen` bytes of an
+    accepted frame (the program's return value: 1518 for the tcp/icmp filters, 64 for arp), while the filter ran on the
+    whole frame.  Every byte the processors and the reply shape read lies within the first 14 + 60 + 60 = 134 (arp: 42)
+    bytes, so for frames of at most 65535 bytes behind the link header the truncation should change nothing; the
+    theorems above are about the untruncated frame and the evidence lists "frames are not longer than the snap length,
+    or truncation to it is harmless" as an assumption.  What is missing is `chain (f.take n) = chain f` for the three
+    chains of `Spec/Frame.lean` and `n ≥ 134` (resp. 42). -/
+def C03_snaplen_full : Prop :=
+  ∀ row ∈ wiring, ∀ (vpn : Bool) (r : Range), RangeOK r = true → ∀ (st : State) (f : Bytes), f.length ≤ 65535 →
+    ∃ scan, scanOf row vpn = some scan ∧
+      (if accepts (filterOf row.bpf r) (linkOf row vpn) f
+       then Proofs.Reply.emitted scan st (f.take (snaplen row.bpf)) else none) =
+        replyRecord row.scanName (kindOf row.cmd) r vpn f
 
 /-! ### non-vacuity (tests, labelled as such) -/
 
